@@ -10,6 +10,7 @@ import itertools
 import random
 
 from props import fsm_common as FC
+from props import state_tie as ST
 
 PID = 'C12'
 GENERATORS = FC.GENERATORS
@@ -242,6 +243,7 @@ def run(ctx):
     deep = not ctx.quick
 
     ok, msg = FC.generate_all(ctx)
+    sg = ST.state_generate(ctx)          # Gen/StateGen.v from the FSM method bodies of pl/state.py
     proofs = {'ok': False, 'failing': 'translator', 'log': msg}
     if ok:
         proofs = ctx.coq_props()
@@ -297,7 +299,10 @@ def run(ctx):
             ctx.broken('witness of the open finding %s no longer reproduces on the implementation' % kind,
                        'model (C12_refuted_*) and code have diverged', {'source': 'correspondence', 'case': cases[cls]})
 
-    if not proofs['ok'] and not hits and not law:
+    # ---- source tie of the waiter methods (translation + proof + sweep) -----------------
+    _tie, reported = ST.state_validate(ctx, sg, proofs, bool(hits or law), PID)
+
+    if not proofs['ok'] and not hits and not law and not reported:
         ctx.broken('theorem/file %s' % proofs['failing'], proofs['log'],
                    {'source': 'proof', 'theorem': proofs['failing']})
 
